@@ -21,13 +21,13 @@ def known_ids():
 #  count monitors: C01 C02 C04 C05 C06 C07 C08 C09 C18(record part)
 # ----------------------------------------------------------------------------------------
 MIX = {
-    'C01': [('random', 4), ('tie', 1), ('quota', 1), ('coalition', 1), ('chain', 1), ('bullet', 2), ('exact', 1), ('sparse', 2), ('bigm', 1)],
-    'C02': [('random', 3), ('chain', 3), ('quota', 1), ('bigm', 2), ('sparse', 1)],
+    'C01': [('random', 4), ('tie', 1), ('quota', 1), ('coalition', 1), ('chain', 1), ('bullet', 2), ('exact', 1), ('sparse', 2), ('bigm', 1), ('unanimous', 1)],
+    'C02': [('random', 3), ('chain', 3), ('quota', 1), ('bigm', 2), ('sparse', 1), ('neartie', 1), ('unanimous', 1)],
     'C04': [('quota', 3), ('exact', 3), ('random', 2), ('tie', 1), ('sparse', 1), ('bigm', 1)],
-    'C05': [('coalition', 4), ('random', 2)],
-    'C06': [('chain', 3), ('random', 3), ('quota', 1), ('bigm', 1), ('sparse', 1), ('surplustie', 1)],
-    'C07': [('tie', 3), ('prior', 2), ('reversal', 1), ('surplustie', 2), ('writein', 1), ('random', 2), ('quota', 1), ('bullet', 1), ('coalition', 1), ('sparse', 1)],
-    'C08': [('random', 4), ('tie', 1), ('quota', 1)],
+    'C05': [('coalition', 4), ('random', 2), ('unanimous', 1), ('sparse', 1)],
+    'C06': [('chain', 3), ('random', 3), ('quota', 1), ('bigm', 1), ('sparse', 1), ('surplustie', 1), ('neartie', 2)],
+    'C07': [('tie', 3), ('prior', 2), ('reversal', 1), ('surplustie', 2), ('writein', 2), ('random', 2), ('quota', 1), ('bullet', 1), ('coalition', 1), ('sparse', 1), ('neartie', 1)],
+    'C08': [('random', 4), ('tie', 1), ('quota', 1), ('unanimous', 1)],
     'C09': [('random', 4), ('tie', 1), ('coalition', 1), ('bullet', 2), ('exact', 1), ('sparse', 2)],
     'C18': [('random', 4), ('tie', 1), ('quota', 1), ('sparse', 1), ('writein', 1)],
 }
@@ -240,8 +240,12 @@ def configs_for(rule, rng, shape, all_=False):
                 (dict(rule=rule, arithmetic=rng.choice(['guarded', 'rational']), integer_quota=True), None) if rng.random() < 0.5 else
                 (dict(rule=rule, arithmetic='guarded', precision=3, guard=2, integer_quota=True), None),
                 (dict(rule=rule, arithmetic=rng.choice(['integer', 'fixed']), precision=2), None)] + gen.configs(rule, rng)
+    if shape == 'neartie' and rule == 'wigm':
+        return [(dict(rule=rule, arithmetic='guarded', precision=p, guard=g_), None) for p, g_ in ((3, 2), (2, 3), (4, 2))]
+    if shape == 'sparse' and rule == 'wigm':
+        return [(dict(rule=rule, arithmetic='fixed', precision=3, defeat_batch='zero'), None), (dict(rule=rule, arithmetic='guarded', precision=3, guard=2, defeat_batch='zero'), None)] + gen.configs(rule, rng)
     if shape != 'exact':
-        return gen.configs(rule, rng, all_=all_)
+        return gen.configs(rule, rng, all_=all_, k=(3 if rule == 'wigm' else 2 if rule in ('meek', 'warren', 'meek-prf', 'qpq') else 1))
     if rule == 'wigm':
         return [(dict(rule=rule, arithmetic='fixed', precision=2), None), (dict(rule=rule, arithmetic='guarded', precision=2, guard=0), None)]
     if rule in ('meek', 'warren'):
@@ -279,14 +283,22 @@ def shipping_stage(R, prop, tier, rng, known):
         return
     big = prop in ('C02', 'C04', 'C08')
     traces, meta = [], {}
-    n = 14 if tier == 'quick' else 250
+    n = 18 if tier == 'quick' else 250
     tid = 0
     for i in range(n):
         pr = make_profile(rng, pick_shape(rng, MIX[prop]), prop)
         if pr['nc'] > 6 or len(pr['lines']) > 10:
             pr = gen.randprofile(rng, maxc=5, maxlines=7, wd=True)
+        ship = SHIPPING
+        if big and i % 3 == 2:
+            # astronomically large electorates (beyond 2^53): integer arithmetic must stay exact
+            f = rng.choice([10 ** 15, 3 * 10 ** 16 + 1, 2 ** 54 + 1])
+            pr = dict(pr, lines=[(m * f + rng.randint(0, 3), r) for m, r in pr['lines']], eqlines=[])
+            ship = SHIPPING + [({'rule': r}, None) for r in ('scotland', 'mpls', 'cfer', 'wigm-prf')] + [({'rule': 'wigm', 'arithmetic': 'integer'}, None)]
         blt = drive.mkblt(**pr)
-        for opts, lp in SHIPPING:
+        for opts, lp in ship:
+            if opts['rule'] == 'qpq' and ship is not SHIPPING:
+                continue
             if prop == 'C08' and drive.fam(opts['rule']) != 'meek':
                 continue
             T = drive.run_count(blt, opts, want_ballots=(opts['rule'] == 'qpq'), budget=20)
@@ -510,14 +522,16 @@ def check_c03(tier):
         meta.clear()
 
     for i in range(nprof):
-        shape = pick_shape(rng, [('random', 4), ('tie', 2), ('prior', 2), ('reversal', 2), ('surplustie', 2), ('writein', 2), ('quota', 2), ('exact', 2), ('chain', 2), ('coalition', 1), ('bullet', 1), ('sparse', 2), ('bigm', 2)])
+        shape = pick_shape(rng, [('random', 4), ('tie', 2), ('prior', 2), ('reversal', 2), ('surplustie', 2), ('writein', 2), ('quota', 2), ('exact', 2), ('chain', 2), ('coalition', 1), ('bullet', 1), ('sparse', 2), ('bigm', 2), ('unanimous', 1)])
         pr = make_profile(rng, shape, 'C01')
         if shape == 'random' and rng.random() < 0.5:
             pr = gen.randprofile(rng, wd=True, und=True, maxc=5, maxlines=7)
         blt = drive.mkblt(**pr)
         for rule in C03_RULES:
             if rule == 'wigm':
-                cfgs = [(dict(rule='wigm', arithmetic='fixed', precision=4), None)] if shape != 'exact' else []
+                cfgs = [(dict(rule='wigm', arithmetic='fixed', precision=4 if shape != 'exact' else 2), None)]
+            elif rule == 'meek-prf' and shape != 'exact':
+                cfgs = [(dict(rule=rule), lp_) for lp_ in gen.LOWPREC['meek-prf']]
             else:
                 cfgs = configs_for(rule, rng, shape)
             for opts, lp in cfgs:
